@@ -122,6 +122,7 @@ func (t *tr) ev(e ast.Expr) Term {
 		case token.ARROW:
 			ch := t.ev(x.X)
 			_ = ch
+			t.detViolation("recv", x.Pos(), "channel receive")
 			ct := t.typeOf(x.X).Underlying().(*types.Chan)
 			rv := t.havocTerm("recv", ct.Elem())
 			t.noteCtxDone(x.X)
@@ -203,6 +204,9 @@ func (t *tr) evIdent(x *ast.Ident) Term {
 			g := t.globalVar(ob)
 			r := t.read(g)
 			t.assume(t.typeInv(r, ob.Type(), t.cur.Env))
+			if t.detOn() && !t.detAllowed(shortPkg(ob.Pkg().Path())+"."+ob.Name()) {
+				t.detViolation("global/"+shortPkg(ob.Pkg().Path())+"."+ob.Name(), x.Pos(), "read of package-level variable "+ob.Name())
+			}
 			return r
 		}
 		if t.escaped[ob] {
